@@ -1431,11 +1431,10 @@ class Interp:
 
                         return self._fork2(st, test, rt, rf)
             if isinstance(l, K) and isinstance(r, K):
-                try:
-                    eq = (l.v == r.v)
+                eq = self.const_equal(l.v, r.v, isinstance(op, (ast.Is, ast.IsNot)), st)
+                if eq is not None:
                     return [(eq != neg, st)]
-                except Exception:
-                    pass
+                return self._fork2(st, test)
             for a, b in ((l, r), (r, l)):
                 if isinstance(a, Sym) and isinstance(b, K) and _is_simple_const(b.v):
                     if any(_safe_eq(x, b.v) for x in a.neq):
@@ -1460,14 +1459,21 @@ class Interp:
                     return self._fork2(st, test, rt, rf)
             return self._fork2(st, test)
         if isinstance(op, (ast.In, ast.NotIn)):
-            if isinstance(l, K) and isinstance(r, K):
-                try:
-                    return [((l.v in r.v) != neg, st)]
-                except Exception:
-                    pass
             items = self.concrete_items(r)
+            if items is None and isinstance(r, K) and isinstance(r.v, dict):
+                items = [wrap(k) for k in r.v.keys() if k != '__duplicate_keys__']
             if isinstance(l, K) and items is not None and all(isinstance(i, K) for i in items):
-                return [(any(_safe_eq(l.v, i.v) for i in items) != neg, st)]
+                res = False
+                for i in items:
+                    e = self.const_equal(l.v, i.v, False, st)
+                    if e is None:
+                        return self._fork2(st, test)
+                    if e:
+                        res = True
+                        break
+                return [(res != neg, st)]
+            if isinstance(l, K) and isinstance(r, K) and isinstance(l.v, str) and isinstance(r.v, str):
+                return [((l.v in r.v) != neg, st)]
             return self._fork2(st, test)
         if isinstance(l, K) and isinstance(r, K):
             try:
@@ -1482,6 +1488,60 @@ class Interp:
             except Exception:
                 pass
         return self._fork2(st, test)
+
+    def const_equal(self, a, b, identity: bool, st: State) -> Optional[bool]:
+        """equality of two constant (folded) values the way Python would decide it; None = unknown.
+        Records of classes that define __eq__ are compared by abstractly evaluating that method; tuple records
+        without __eq__ compare like tuples; other records by identity."""
+        if isinstance(a, AVal) or isinstance(b, AVal):
+            return None
+        ra, rb = isinstance(a, Record), isinstance(b, Record)
+        if not ra and not rb:
+            if isinstance(a, (tuple, list)) and isinstance(b, (tuple, list)) and type(a) == type(b):
+                if len(a) != len(b):
+                    return False
+                out = True
+                for x, y in zip(a, b):
+                    e = self.const_equal(x, y, False, st)
+                    if e is None:
+                        return None
+                    out = out and e
+                return out
+            try:
+                return (a is b) if identity and not _is_simple_const(a) else bool(a == b)
+            except Exception:
+                return None
+        if identity:
+            return a is b
+        if a is b:
+            # reflexive for every __eq__ the repository defines (checked value-wise below when not identical)
+            pass
+        rec = a if ra else b
+        other = b if ra else a
+        eq = self.ix.class_member(rec.cls, '__eq__')
+        if isinstance(eq, FuncDef) and self.depth < 10:
+            pp = eq.positional_params()
+            if len(pp) == 2:
+                s2 = st.fork()
+                outs = self.call_function(eq, {pp[0].arg: K(rec), pp[1].arg: wrap(other)}, s2, None)
+                vals = set()
+                for kind, v, _ in outs:
+                    if kind == 'val' and isinstance(v, K) and isinstance(v.v, bool):
+                        vals.add(v.v)
+                    else:
+                        return None
+                if len(vals) == 1:
+                    return next(iter(vals))
+            return None
+        if not (ra and rb):
+            return False
+        if tuple_record_elements(self.ix, a.cls) is not None and tuple_record_elements(self.ix, b.cls) is not None:
+            ea = [self.fo.record_tuple_element(a, i) for i in range(len(tuple_record_elements(self.ix, a.cls)[1]))]
+            eb = [self.fo.record_tuple_element(b, i) for i in range(len(tuple_record_elements(self.ix, b.cls)[1]))]
+            if any(is_unknown(x) for x in ea + eb):
+                return None
+            return self.const_equal(tuple(ea), tuple(eb), False, st)
+        return a is b
 
     def isinstance_test(self, v: AVal, cls_node, st: State, test):
         types = cls_node.elts if isinstance(cls_node, ast.Tuple) else [cls_node]
